@@ -534,7 +534,7 @@ Section Totals.
     induction reqs as [|r reqs IH]; intros s; cbn [ult_reqs gdo]; [apply G_refl|].
     destruct (get_unit (units s) (ur_target r)) as [u|]; [|apply G_refl].
     destruct (negb (uchar u)); [apply G_refl|].
-    destruct (PrimFloat.eqb _ 1); [|apply IH].
+    destruct (can_ult u); [|apply IH].
     eapply gdo_after; [|apply IH].
     eapply G_trans; [|apply G_set_energy]. apply G_quiet; reflexivity.
   Qed.
@@ -580,7 +580,7 @@ Section Totals.
       set (s1 := emit (set_next s q) [VNextAction id (dc_type d) (dc_eval d)]) in *.
       assert (E1 : G s s1).
       { eapply G_trans; [apply (G_quiet s (set_next s q)); reflexivity|apply G_emit_plain; reflexivity]. }
-      destruct ((dc_type d =? 1) && negb (uspneed u <=? sp s1)) eqn:ED.
+      destruct ((dc_type d =? 1) && negb (can_skill u s1)) eqn:ED.
       + set (s2 := emit s1 [VDefaultAction id]) in *.
         assert (E2 : G s s2) by (eapply G_trans; [exact E1|apply G_emit_plain; reflexivity]).
         destruct (evaluate s2 id 100 (utt_a u)) as [p|]; [|exact E2].
@@ -1504,8 +1504,8 @@ Qed.
    1e16, 1, 1, ... and logged in the order 1, 1, 1e16, ...: the two binary64 sums differ. *)
 Definition demo_cfg9 : config :=
   mkCfg
-    [mkUD 0 true 100 1000 100 0 1 1 TEnemies TEnemies TEnemies [0%nat; 3%nat; 3%nat];
-     mkUD 100 false 80 1e18 0 0 0 0 TEnemies TEnemies TEnemies [1%nat; 1%nat; 1%nat]]
+    [mkUD 0 true 100 1000 100 0 1 1 TEnemies TEnemies TEnemies [0%nat; 3%nat; 3%nat] [] [];
+     mkUD 100 false 80 1e18 0 0 0 0 TEnemies TEnemies TEnemies [1%nat; 1%nat; 1%nat] [] []]
     [[SAttack 3 [TPrimary] true 1e16];
      [SAttack 4 [TId 1] true 10];
      [SAttack 5 [TSelfSel; TSelfSel] false 1];
